@@ -1475,7 +1475,7 @@ class HttpHeaderFieldValueSetCookie(FieldValueBase):  # pylint: disable=too-many
         parser = ParserText(parsable)
 
         parser.parse_string_until_separator('name', '=')
-        parser.parse_separator('=')
+        parser.parse_string('separator', '=')
         parser.parse_string_until_separator_or_end('value', ';')
 
         if parser.unparsed:
